@@ -66,11 +66,20 @@ C8 == E.life.on =>
                          p >= segs[Len(segs)].first /\ E.res = ReadFromLoose(recs, segs, p, E.snap)}
            IN PT = {} \/ E.life.res.err # "" \/ \E p \in PT :    \* (a loud failure is inside the statement)
                  E.life.res = ReadFromLoose(Pre(recs, p) \o LifeRecs, segs, p + Len(LifeRecs), E.snap)
-ImageOK == C1 /\ C2 /\ C3 /\ C4 /\ C5 /\ C6 /\ C7 /\ C8
+\* the snapshot the restart loaded (LoadNewestAvailable over the image's snapshot directory with
+\* the markers ValidSnapshotEntries returned) is the newest file that is intact and marked valid,
+\* with the content that was saved under that name - or none
+C9 == (E.snapon /\ E.valid.err = "") =>
+        LET F == SeqSet(E.files)
+            p == PickSnap(F, SeqSet(E.valid.snaps))
+        IN /\ E.picked = p
+           /\ p # NoSnapFile => \E f \in F : f.i = p.i /\ f.t = p.t /\ f.ok /\ f.x = E.pdata
+ImageOK == C1 /\ C2 /\ C3 /\ C4 /\ C5 /\ C6 /\ C7 /\ C8 /\ C9
 \* which conjuncts failed, as a bit mask: 1 panic-or-count, 2 durable-prefix, 4 repairable,
-\* 8 invented, 16 second-reopen, 32 valid-snapshots, 64 verify, 128 second-life
+\* 8 invented, 16 second-reopen, 32 valid-snapshots, 64 verify, 128 second-life, 256 snapshot-pick
 Why == (IF C1 THEN 0 ELSE 1) + (IF C2 THEN 0 ELSE 2) + (IF C3 THEN 0 ELSE 4) + (IF C4 THEN 0 ELSE 8)
        + (IF C5 THEN 0 ELSE 16) + (IF C6 THEN 0 ELSE 32) + (IF C7 THEN 0 ELSE 64) + (IF C8 THEN 0 ELSE 128)
+       + (IF C9 THEN 0 ELSE 256)
 
 Mismatch(exp) == /\ bad' = TRUE
                  /\ PrintT(<<"MISMATCH", l, exp>>)
